@@ -97,7 +97,22 @@ def exec_job(job):
     rep = None
     # how the caller types the integer parameters (job['ntype'], drawn): Python int or a numpy
     # integer (n = len(...) of an array, K = a count computed with numpy); same values
-    I = {"int": int, "np64": np.int64, "np32": np.int32}[job.get("ntype", "int")]
+    # (seed round 7) also the narrow types a size read from a .mat / .npy file or an int16 table has:
+    # int8 / uint8 / int16 / uint16 where the value fits, n and K typed independently (products such
+    # as n * (n - 1) wrap in the narrow type although n and the result fit comfortably)
+    TY = {"int": int, "np64": np.int64, "np32": np.int32, "np16": np.int16, "npu16": np.uint16,
+          "np8": np.int8, "npu8": np.uint8}
+
+    def typed(name):
+        ty = TY[job.get(name, "int")]
+        def conv(v):
+            if ty in (int, np.int64, np.int32):
+                return ty(v)
+            ii = np.iinfo(ty)
+            return ty(v) if ii.min <= int(v) <= ii.max else int(v)
+        return conv
+    I = typed("ntype")
+    IK = typed("ktype") if job.get("ktype") else I
     scale = bool(job.get("scale"))
 
     def degvec(v):
@@ -113,9 +128,9 @@ def exec_job(job):
         return a
     try:
         if fn in ("makerandCIJ_dir", "makerandCIJ_und", "makeringlatticeCIJ"):
-            A = f(I(job["n"]), I(job["k"]), seed=r)
+            A = f(I(job["n"]), IK(job["k"]), seed=r)
         elif fn == "maketoeplitzCIJ":
-            A = f(I(job["n"]), I(job["k"]), job["s"], seed=r)
+            A = f(I(job["n"]), IK(job["k"]), job["s"], seed=r)
         elif fn == "makeevenCIJ":
             A = f(I(job["n"]), I(job["k"]), I(job["sz_cl"]), seed=r)
         elif fn == "makefractalCIJ":
@@ -222,6 +237,13 @@ def seeded_jobs(ctx):
         # integer parameters typed as Python ints (half) or numpy integers; degree sequences as
         # int64 / int32 / float64 vectors, contiguous or strided (makerandCIJdegreesfixed only)
         kw["ntype"] = rng.choice(["int", "int", "np64", "np32"])
+        if kw["fn"] in ("makerandCIJ_dir", "makerandCIJ_und", "makeringlatticeCIJ", "maketoeplitzCIJ") \
+                and rng.random() < 0.3:
+            # narrow size types (exec_job): the unchanged generators give the very same network for
+            # them (sampled 400 combinations); makeevenCIJ is left out - it mixes K into unsigned
+            # arithmetic and is not claimed for such K
+            kw["ntype"] = rng.choice(["np16", "npu16", "np8", "npu8"])
+            kw["ktype"] = rng.choice(["int", "int", "np16", "npu16", "np8", "npu8", "np32"])
         if kw["fn"] == "makerandCIJdegreesfixed":
             kw["dtype"] = rng.choice(["int64", "int64", "int32", "float64"])
             kw["layout"] = rng.choice(["C", "C", "stride"])
@@ -238,6 +260,17 @@ def seeded_jobs(ctx):
         und = rng.random() < 0.5
         m = n * (n - 1) // (2 if und else 1)
         add(fn="makerandCIJ_und" if und else "makerandCIJ_dir", n=n, k=rng.choice([0, 1, m - 1, m, rng.randint(0, m)]))
+    # narrow-typed sizes at the node counts where products of the size wrap in its own type (seed
+    # round 7): int8 from n = 12, uint8 from 17, int16 from 182, uint16 from 257; K anywhere in 0..full
+    for _ in range(60 if q else 600):
+        ty = rng.choice(["np8", "npu8", "np8", "npu8", "np16", "npu16"])
+        n = {"np8": rng.randint(12, 127), "npu8": rng.randint(17, 255),
+             "np16": rng.randint(182, 230), "npu16": rng.randint(257, 300)}[ty]
+        fn = rng.choice(["makerandCIJ_und", "makerandCIJ_dir", "makeringlatticeCIJ"])
+        m = n * (n - 1) // (2 if fn == "makerandCIJ_und" else 1)
+        add(fn=fn, n=n, k=rng.choice([rng.randint(0, m), rng.randint(m // 2, m), m]), src="seeded-narrow")
+        jobs[-1]["ntype"] = ty
+        jobs[-1]["ktype"] = rng.choice(["int", "np32", ty])
     # ring lattices: every feasible K for n <= 9 (12), random beyond
     for n in range(1, 10 if q else 13):
         for k in range(n * (n - 1) + 1):
@@ -338,6 +371,13 @@ def scale_jobs(ctx):
         kw["src"] = "scale-" + regime
         kw["scale"] = 1
         kw["ntype"] = rng.choice(["int", "int", "np64", "np32"])
+        if kw["fn"] in ("makerandCIJ_dir", "makerandCIJ_und", "makeringlatticeCIJ", "maketoeplitzCIJ") \
+                and rng.random() < 0.3:
+            # narrow size types (exec_job): the unchanged generators give the very same network for
+            # them (sampled 400 combinations); makeevenCIJ is left out - it mixes K into unsigned
+            # arithmetic and is not claimed for such K
+            kw["ntype"] = rng.choice(["np16", "npu16", "np8", "npu8"])
+            kw["ktype"] = rng.choice(["int", "int", "np16", "npu16", "np8", "npu8", "np32"])
         if kw["fn"] == "makerandCIJdegreesfixed":
             top = max(kw["inv"] + kw["outv"] + [0])
             kw["dtype"] = rng.choice(["int64", "int32", "float64", "int16"] + (["uint8"] if top <= 255 else []))
